@@ -22,6 +22,7 @@
   Core Lean only.  Floats are opaque 64-bit patterns: the model never inspects them.
 -/
 import Cel.Model.Basic
+import Cel.Model.Time
 namespace Cel.JsonM
 open Cel
 
@@ -296,9 +297,14 @@ def tsStr (t : TS) : List Char :=
   padNat 4 t.year ++ '-' :: padNat 2 t.month ++ '-' :: padNat 2 t.day ++ 'T' :: padNat 2 t.hour ++ ':' ::
     padNat 2 t.minute ++ ':' :: padNat 2 t.second ++ offStr t.offMin
 
-/-- `DurationType.__str__`: `"{0}s".format(int(self.total_seconds()))` — truncation toward zero of the
-seconds (exact while |d| < 2^34 s; beyond, `total_seconds()` rounds to a double first). -/
-def durStr (us : Int) : List Char := (toString (Int.tdiv us 1000000)).toList ++ ['s']
+/-- the integer `DurationType.__str__` writes: `int(self.total_seconds())` — `total_seconds()` is the binary64 value nearest to
+µs/10^6 (`Cel.Time.totalSeconds`, exact model of the correctly rounded quotient), `int()` truncates it toward zero.
+`Cel.Props.C15.duration_seconds_truncate`: for |d| < 2^34 s this is exactly the truncation of the duration to whole seconds
+(beyond, a fraction within half a spacing of the next second rounds up to it first — `duration_seconds_sharp`). -/
+def durSeconds (us : Int) : Int := (Cel.Time.totalSeconds us).trunc
+
+/-- `DurationType.__str__`: `"{0}s".format(int(self.total_seconds()))` -/
+def durStr (us : Int) : List Char := (toString (durSeconds us)).toList ++ ['s']
 
 /-! ### `CELJSONEncoder` -/
 
